@@ -62,8 +62,6 @@ package bpv7
 //@ assigns nothing
 //@ ensures result1 == nil ==> result0 != nil
 //@ ensures result1 != nil ==> result0 == nil && forall j int :: 0 <= j && j < len(b.CanonicalBlocks) ==> b.CanonicalBlocks[j].Value.BlockTypeCode() != blockType
-//@ let at := uf("extAt", int, b, blockType, ref(b.CanonicalBlocks), len(b.CanonicalBlocks))
-//@ ensures result1 == nil ==> 0 <= at && at < len(b.CanonicalBlocks) && result0 == &b.CanonicalBlocks[at] && b.CanonicalBlocks[at].Value.BlockTypeCode() == blockType
 //@ loop 0 invariant 0 <= i && i <= len(b.CanonicalBlocks) && forall j int :: 0 <= j && j < i ==> b.CanonicalBlocks[j].Value.BlockTypeCode() != blockType
 //@ loop 0 decreases len(b.CanonicalBlocks) - i
 
